@@ -194,11 +194,11 @@ void count_cut(const Stream &s, size_t c) {
 }
 
 void sample_stream(const Stream &s, const char *mode, size_t feeds) {
-    if (!vh::want_sample(2)) return;
+    if (vh::st().args.first != 0 || !vh::want_sample(1)) return;    // one sample per leg (the driver keeps six in all)
     std::string j = "{\"mode\":" + vh::jstr(mode) + ",\"requests\":" + std::to_string(s.reqs.size()) + ",\"bytes\":" + std::to_string(s.bytes.size()) +
                     ",\"feeds\":" + std::to_string(feeds) + ",\"stream_prefix\":" + vh::jstr(s.bytes.substr(0, 260)) + ",\"first_request_parsed_as\":" +
                     vh::jstr(brief(s.want[0], 200)) + "}";
-    vh::sample(j, 2);
+    vh::sample(j, 1);
 }
 
 void case_segment(vh::Rng &r, bool big) {
@@ -318,7 +318,7 @@ void case_hostile(vh::Rng &r) {
         else if (!f.got.empty()) vh::counter("hostile_yielded_requests");
         else vh::counter("hostile_waiting_for_more");
     }
-    if (vh::want_sample(2)) vh::sample("{\"mode\":\"hostile\",\"edits\":" + vh::jstr(what) + ",\"bytes\":" + vh::jstr(bytes.substr(0, 240)) + "}", 2);
+    if (vh::st().args.first == 0 && vh::want_sample(1)) vh::sample("{\"mode\":\"hostile\",\"edits\":" + vh::jstr(what) + ",\"bytes\":" + vh::jstr(bytes.substr(0, 240)) + "}", 1);
     vh::note_case(sig.h, L >= 4);
 }
 
